@@ -366,8 +366,20 @@ def execute_words(bins, words, tag):
 def run(tier):
     out = C.Outcome('C17', tier)
     rng = C.Rng(C.seed()).fork('C17')
-    changed, nrows, info = a64table.regen()
+    dump_err = None
+    try:
+        changed, nrows, info = a64table.regen()
+    except C.Infra as e:
+        # the dumper no longer builds/runs against the tree (a table field or an interpreted argument kind disappeared): a broken
+        # obligation, not an infrastructure problem; keep going on the last dumped table so that a failing input can still be found
+        dump_err = str(e)
+        old = os.path.join(C.BUILD, 'c17.tabledump')
+        rows_, kinds_, ops_, rb_ = a64table.parse(open(old).read()) if os.path.exists(old) else ([], {}, {}, {})
+        changed, nrows, info = False, len(rows_), {'rows': rows_}
     proof = C.prove('C17', leanchecker=(tier == 'thorough'))
+    if dump_err:
+        proof['ok'] = False
+        proof['failed'].append(('table-dumper', dump_err[-1500:]))
     bins = build_probes()
     rows = info['rows']
 
@@ -436,7 +448,7 @@ def run(tier):
 
     # ---- 3. sweep (execution, not proof)
     segs, seg_text = sweep_segments(tier, rng)
-    sw = run_sweep(bins[0], segs, strcmp=(tier == 'quick'), budget_s=int(os.environ.get('VERIF_C17_BUDGET_S', '1500' if tier == 'thorough' else '150')))
+    sw = run_sweep(bins[0], segs, strcmp=(tier == 'quick'), budget_s=int(os.environ.get('VERIF_C17_BUDGET_S', '1300' if tier == 'thorough' else '150')))
     sweep_bad = []
     for key, what in (('Panic', 'Decode or Inst.String() panicked'), ('DiffDecodable', 'decodability differs from the reference'),
                       ('DiffOp', 'opcode differs from the reference'), ('DiffPcrel', 'PC-relative displacement differs from the reference')):
@@ -494,11 +506,13 @@ def run(tier):
                 '(a test), not a proof.',
         'distribution': {
             'table_rows': nrows, 'gen_table_changed_this_run': changed, 'line_mode_words': len(wl), 'lanes': lanes,
-            'table_rows_hit_by_real_decoder': len(rows_hit), 'line_mode_decodable': sum(1 for x in impl if x and x.startswith('row=')),
+            'table_rows_hit_by_real_decoder': len(rows_hit),
+            'table_rows_never_chosen(shadowed, or canDecode always false)': sorted(set(range(nrows)) - {int(x) for x in rows_hit})[:64], 'line_mode_decodable': sum(1 for x in impl if x and x.startswith('row=')),
             'line_mode_string_text_differs_from_reference(not part of the property)': strdiff,
             'scan_ops': len(sops), 'scan_unmodelled(skipped in model comparison)': unmod,
             'scan_results': {k: sum(1 for x in simpl if x and x.split('=')[0] == k) for k in ('target', 'zero', 'err', 'size')},
-            'sweep': {'segments': seg_text, 'words': sw['Words'], 'complete': sw.get('Complete'), 'wall_s': sw['wall_s'], 'goom_decodable': sw['GoomOK'],
+            'sweep': {'segments': seg_text, 'words': sw['Words'], 'complete': sw.get('Complete'), 'fraction_of_2^32': round(sw['Words'] / (1 << 32), 4),
+                      'budget_note': 'the sweep stops starting new blocks after VERIF_C17_BUDGET_S seconds (default 1300 thorough); passes are interleaved so a partial sweep is uniform; exhaustive is reported only when complete', 'wall_s': sw['wall_s'], 'goom_decodable': sw['GoomOK'],
                       'ref_decodable': sw['RefOK'], 'both_reject': sw['BothErr'], 'sys_alias_words(allowed difference)': sw['Allowed'],
                       'sys_alias_words_that_differ': sw['AllowedDiff'], 'words_with_pcrel': sw['PcrelWords'], 'pcrel_ops': sw['Ops'],
                       'string_compared': sw['StrCompared'], 'string_text_differs(not part of the property)': sw['StrDiff'],
